@@ -16,7 +16,7 @@ import (
 )
 
 type step struct {
-	Op    string `json:"op"` // rel | fault | cancel | death
+	Op    string `json:"op"` // rel | fault | cancel | death | settle
 	Host  string `json:"host,omitempty"`
 	Class string `json:"class,omitempty"`
 	N     string `json:"n,omitempty"`
@@ -61,6 +61,7 @@ type scenario struct {
 	Faults      []pos    `json:"faults,omitempty"`
 	Cancel      *pos     `json:"cancel,omitempty"`
 	Death       *pos     `json:"death,omitempty"`
+	CancelCB    *pos     `json:"cancel_cb,omitempty"` // cancel when the progress callback reports "blob N started" the Occ-th time
 	Seed        int64    `json:"seed,omitempty"`
 	Origin      string   `json:"origin,omitempty"` // free text: which generator made it
 }
